@@ -21,6 +21,7 @@ _XSD = """<xs:schema xmlns:xs="http://www.w3.org/2001/XMLSchema" targetNamespace
  <xs:element name="hm" type="xs:string" substitutionGroup="h"/>
  <xs:element name="r"><xs:complexType><xs:sequence>
    <xs:element name="a"><xs:complexType><xs:sequence><xs:element name="v" type="xs:int"/><xs:element ref="h" minOccurs="0"/></xs:sequence></xs:complexType></xs:element>
+   <xs:choice minOccurs="0" maxOccurs="unbounded"><xs:element name="t"><xs:complexType><xs:sequence><xs:element name="v" type="xs:time"/></xs:sequence></xs:complexType></xs:element></xs:choice>
    <xs:element name="b" maxOccurs="unbounded"><xs:complexType><xs:sequence>
        <xs:element name="v" type="xs:boolean"/><xs:element ref="g" minOccurs="0"/>
        <xs:element name="w" minOccurs="0"><xs:complexType><xs:sequence><xs:element name="v" type="xs:date"/></xs:sequence></xs:complexType></xs:element>
@@ -28,10 +29,10 @@ _XSD = """<xs:schema xmlns:xs="http://www.w3.org/2001/XMLSchema" targetNamespace
  </xs:sequence><xs:attribute name="id" type="xs:int"/></xs:complexType></xs:element></xs:schema>"""
 DOCS = [
     # valid
-    '<p:r xmlns:p="urn:u1" id="1"><p:a><p:v>1</p:v><p:hm>s</p:hm></p:a><p:b k="1"><p:v>true</p:v><p:g>5</p:g></p:b>'
+    '<p:r xmlns:p="urn:u1" id="1"><p:a><p:v>1</p:v><p:hm>s</p:hm></p:a><p:t><p:v>10:00:00</p:v></p:t><p:t><p:v>11:00:00</p:v></p:t><p:b k="1"><p:v>true</p:v><p:g>5</p:g></p:b>'
     '<p:b><p:v>0</p:v><p:w><p:v>2000-01-01</p:v></p:w></p:b></p:r>',
     # invalid values in b[2]/v and b[2]/w/v, bad attribute on b[1]
-    '<p:r xmlns:p="urn:u1" id="1"><p:a><p:v>1</p:v><p:hm>s</p:hm></p:a><p:b k="x"><p:v>true</p:v><p:g>5</p:g></p:b>'
+    '<p:r xmlns:p="urn:u1" id="1"><p:a><p:v>1</p:v><p:hm>s</p:hm></p:a><p:t><p:v>10:00:00</p:v></p:t><p:t><p:v>noon</p:v></p:t><p:b k="x"><p:v>true</p:v><p:g>5</p:g></p:b>'
     '<p:b><p:v>maybe</p:v><p:w><p:v>yesterday</p:v></p:w></p:b></p:r>',
 ]
 NS = {'p': U1}
@@ -89,7 +90,7 @@ def region_partial_substitution_member(**kw):
 
 
 def pre_idx(fn, **kw):
-    lim = {"e": 11, "v": 5, "d": 3}
+    lim = {"e": 15, "v": 5, "d": 4}
     for k, val in kw.items():
         if not (0 <= val < lim[k]):
             return False
@@ -104,7 +105,7 @@ def h_find(e: int, v: int) -> bool:
     """schema.find(path of the element) is the declaration that governed the element during validation"""
     res = xmlschema.XMLResource(DOCS[CFG["doc"]])
     elems = list(res.root.iter())
-    ei = pick(e, 11)
+    ei = pick(e, 15)
     if ei >= len(elems):
         return True
     elem = elems[ei]
@@ -147,7 +148,7 @@ def h_partial(e: int, v: int) -> bool:
     doc = DOCS[CFG["doc"]]
     res = xmlschema.XMLResource(doc)
     elems = list(res.root.iter())
-    ei = pick(e, 11)
+    ei = pick(e, 15)
     if ei == 0 or ei >= len(elems):
         return True
     elem = elems[ei]
@@ -179,16 +180,17 @@ def h_partial(e: int, v: int) -> bool:
 def h_depth(d: int) -> bool:
     """limiting the depth changes nothing above the cut"""
     doc = DOCS[CFG["doc"]]
-    depth = pick(d, 3) + 1
+    depth = pick(d, 4)
     full, _ = SCHEMA.decode(doc, validation='lax', namespaces=NS)
     cut, errs = SCHEMA.decode(doc, validation='lax', namespaces=NS, max_depth=depth)
     # reference: keep attributes everywhere above the cut; element children only while their level <= depth
-    want = _cut(full, 1, depth)
+    # (max_depth=0 keeps the root's own attributes only, like max_depth=1)
+    want = _cut(full, 1, max(depth, 1))
     if cut != want:
         return False
     full_errors = [(er.reason, er.path) for er in SCHEMA.iter_errors(doc, namespaces=NS)]
     cut_errors = [(er.reason, er.path) for er in errs]
-    want_errors = [x for x in full_errors if x[1].count('/') <= depth]
+    want_errors = [x for x in full_errors if x[1].count('/') <= max(depth, 1)]
     return cut_errors == want_errors
 
 
@@ -251,5 +253,5 @@ def obligations(tier, seed):
         out.append({"name": "partial/doc%d" % doc, "fn": "h_partial", "pre": "pre_idx", "args": [["e", "int"], ["v", "int"]], "config": {"doc": doc},
                     "timeout": 600, "twin_timeout": 30, "bound": "every non-root element x path with/without positional predicates"})
         out.append({"name": "depth/doc%d" % doc, "fn": "h_depth", "pre": "pre_idx", "args": [["d", "int"]], "config": {"doc": doc},
-                    "timeout": 200, "twin_timeout": 30, "bound": "max_depth 1..3"})
+                    "timeout": 200, "twin_timeout": 30, "bound": "max_depth 0..3"})
     return out
